@@ -28,7 +28,9 @@ def subst(*pairs):
 MUTANTS = {
     # the two concurrency defects repaired recently, re-introduced
     "refcount-after-publish": (revert("648ad35"), "C01 C17", "manager published before its reference count leaves the 'freed' marker (reverts 648ad35)"),
-    "slowmap-shortcut": (revert("bed1479"), "C01 C03", "GetLockManager short cut 'slot count <= 1 means no slow-map key' (reverts bed1479)"),
+    "slowmap-shortcut": (revert("bed1479"), "C01 C17", "GetLockManager short cut 'slot count <= 1 means no slow-map key' (reverts bed1479)"),
+    "duplicate-manager": (revert("97ab9b3"), "C01 C17", "slow-map creator ignores a manager being published in the fast slot (reverts 97ab9b3, found by E2)"),
+    "remove-deletes-successor": (revert("91022a5"), "C17 C01", "RemoveLockManager deletes the slow-map entry by key (reverts 91022a5, found by E2)"),
     # drop a shard mutex around one critical section: the expiry sweep walks its wheel slot without the shard mutex
     "sweep-without-mutex": (subst(
         ("\tself.managerGlocks[glockIndex].HighPriorityLock()\n\tlock := expriedLocks[glockIndex].Pop()", "\tlock := expriedLocks[glockIndex].Pop()"),
